@@ -430,6 +430,9 @@ func (mr *msgReader) Read(p []byte) (n int, err error) {
 	eom := mr.fin && mr.payloadLength == 0 && (!mr.flate || mr.flateTail.Len() == 0)
 	if eom && (errors.Is(err, io.EOF) || errors.Is(err, io.ErrUnexpectedEOF) && mr.flate) {
 		mr.putFlateReader()
+		// The flate reader is back in the pool and may be handed to another
+		// connection, further reads of this message must not use it.
+		mr.limitReader.r = mr.readFunc
 		return n, io.EOF
 	}
 	if err != nil {
